@@ -982,6 +982,36 @@ namespace plan
         return log;
     }
 
+    // Switch flipping without choice bytes: every declared "0,1" parameter is flipped with probability 1/2, decided by a hash of the planner
+    // seed and the parameter name (for harnesses whose saved cases must keep their meaning: nothing is decoded for it).
+    inline std::string flipSwitchesHashed(const ob::PlannerPtr &pl, uint64_t seed)
+    {
+        std::string log;
+        ErrorCapture cap;
+        static const char *skip[] = {"intermediate_states", "thread_count", "num_threads", "num_planners", "planners"};
+        std::vector<std::string> names;
+        pl->params().getParamNames(names);
+        std::sort(names.begin(), names.end());
+        for (auto &nm : names)
+        {
+            bool skipped = false;
+            for (auto *k : skip)
+                if (nm == k)
+                    skipped = true;
+            if (skipped || pl->params().getParam(nm)->getRangeSuggestion() != "0,1")
+                continue;
+            uint64_t h = vf::fnv1a(nm.data(), nm.size(), seed * 0x9e3779b97f4a7c15ull + 1);
+            if (((h >> 17) & 1) == 0)
+                continue;
+            std::string val = pl->params().getParam(nm)->getValue() == "1" ? "0" : "1";
+            bool ok = pl->params().setParam(nm, val);
+            log += " " + nm + "=" + val + (ok ? "" : "(refused)");
+            if (!cap.first.empty())
+                throw ompl::Exception("setting " + nm + "=" + val + " was answered with the error message: " + cap.first);
+        }
+        return log;
+    }
+
     // ---------------------------------------------------------------------------------------------------------
     // The path oracle (C01 clauses 2-4). Returns "" when fine; otherwise "key|message".
     struct PathVerdict
